@@ -66,6 +66,17 @@ func body(cte string, text string) string {
 		}
 		b.WriteString(e + "\r\n")
 		return b.String()
+	case "b64cut1", "b64cut2", "b64cut3": // cut inside a group of four characters
+		e := strings.TrimRight(base64.StdEncoding.EncodeToString([]byte(text+"padding so that several lines exist, more than seventy-six characters of it")), "=")
+		e = e[:len(e)-len(e)%4]
+		e = e[:len(e)-int(cte[len(cte)-1]-'0')]
+		var b strings.Builder
+		for len(e) > 76 {
+			b.WriteString(e[:76] + "\r\n")
+			e = e[76:]
+		}
+		b.WriteString(e)
+		return b.String()
 	case "b64garbage":
 		return "!!!this is not base64 at all$$$\r\n====\r\n"
 	case "qp":
@@ -82,7 +93,7 @@ func cteHeader(cte string) string {
 		return "Content-Transfer-Encoding: " + cte + "\r\n"
 	case "qp":
 		return "Content-Transfer-Encoding: quoted-printable\r\n"
-	case "b64", "b64garbage":
+	case "b64", "b64garbage", "b64cut1", "b64cut2", "b64cut3":
 		return "Content-Transfer-Encoding: base64\r\n"
 	}
 	return "Content-Transfer-Encoding: x-unknown-encoding\r\n"
